@@ -78,12 +78,22 @@ func c18ExhConfsD(long, short string, swapped, reduced bool) []c18Conf {
 	return out
 }
 
+// classes of the probe-fault region (added after the round-8 seed): a query whose probe failed on
+// the station's side / in the resolver; such a probe while the cache still held an entry of the
+// address that it could not serve (expired, not cleaned up, not evicted) - non-live, live -; such a
+// probe with nothing held.
+var c18FaultClasses = []string{"probe-fault:local", "probe-fault:resolver", "fault-reprobe:nonlive-entry-held", "fault-reprobe:live-entry-held", "fault-probe:nothing-held"}
+
 func TestVerif_C18_exhaustive(t *testing.T) {
-	rec := vh.NewRec("C18", "exhaustive", "every history of length 1..L over the 9-symbol alphabet {query A/B/C x probe verdict live/non-live, advance 300 s, advance 3300 s, clear-expired} on every configuration {live off / 1h} x {non-live off / 5m} x capacities {0,1,2}^2 (thorough: also with the two lifetimes swapped; the longest length on a reduced configuration set), plus the same product with lifetimes 1500ms / 500ms and advances 500 ms / 1000 ms up to length 4 (thorough 5), and the 1h / 5m product over three phantoms written as zoned IPv6, host name and zero-padded IPv4 up to length 4 (thorough 5); shortest histories first; non-trivial = the history contains a cache hit, an expiry followed by a re-probe with the opposite verdict, or an eviction; distinct by (configuration, history)")
+	rec := vh.NewRec("C18", "exhaustive", "every history of length 1..L over the 9-symbol alphabet {query A/B/C x probe verdict live/non-live, advance 300 s, advance 3300 s, clear-expired} on every configuration {live off / 1h} x {non-live off / 5m} x capacities {0,1,2}^2 (thorough: also with the two lifetimes swapped; the longest length on a reduced configuration set), plus the same product with lifetimes 1500ms / 500ms and advances 500 ms / 1000 ms up to length 4 (thorough 5), and the 1h / 5m product over three phantoms written as zoned IPv6, host name and zero-padded IPv4 up to length 4 (thorough 5), and a probe-fault family: two phantoms x {live, non-live, live with a dial error} with every pair of the curated dial errors (station-side errnos from connect/socket, resolver and address errors, refusals) on every caching configuration up to length 3 (thorough 4) and one pair per configuration up to length 4 (thorough 5); shortest histories first; non-trivial = the history contains a cache hit, an expiry followed by a re-probe with the opposite verdict, or an eviction; distinct by (configuration, history)")
 	defer rec.Flush()
 	rec.Require("hit-live", "hit-nonlive", "expiry-then-flip", "eviction", "reprobe-after-expiry", "reprobe-while-fresh", "clear-removed",
 		"conf:both", "conf:live-only", "conf:nonlive-only", "conf:uncached", "conf:capacity-live", "conf:capacity-nonlive")
 	rec.Require("conf:fractional-lifetime", "adv-subsecond", "query-within-1s-after-fractional-expiry", "addr:non-canonical-spelling", "addr:two-non-literal-phantoms")
+	rec.Require(c18FaultClasses...)
+	if err := c18CheckAlphabet(); err != nil {
+		t.Fatalf("harness problem: %v", err)
+	}
 	if c18Replay(t, rec) {
 		return
 	}
@@ -105,6 +115,16 @@ func TestVerif_C18_exhaustive(t *testing.T) {
 	rec.Extra("max_len_non_literal_address_confs", oddLen)
 	fracLen := vh.Pick(4, 5)
 	rec.Extra("max_len_fractional_lifetime_confs", fracLen)
+	// a fourth family whose probes can also FAIL: two phantoms x {live, non-live, live with a dial
+	// error}; every pair of the curated dial errors on every caching configuration up to length
+	// faultLenAll (the shortest history in which an expired entry meets a failed re-probe has 3
+	// operations), one pair per configuration (rotating) up to faultLen
+	faultPairs := c18FaultPairs()
+	faultLenAll := vh.Pick(3, 4)
+	faultLen := vh.Pick(4, 5)
+	rec.Extra("max_len_probe_fault_all_error_pairs", faultLenAll)
+	rec.Extra("max_len_probe_fault_one_error_pair_per_conf", faultLen)
+	rec.Extra("probe_fault_error_pairs", len(faultPairs))
 	idx := 0
 	ops := make([]int, 0, maxLen)
 	type fam struct {
@@ -127,6 +147,15 @@ func TestVerif_C18_exhaustive(t *testing.T) {
 		}
 		if L <= oddLen {
 			fams = append(fams, fam{oddAlpha, c18ExhConfs(false, false)[9:]})
+		}
+		if L <= faultLen {
+			for i, cf := range c18ExhConfs(false, false)[9:] {
+				for j, pr := range faultPairs {
+					if L <= faultLenAll || j == i%len(faultPairs) {
+						fams = append(fams, fam{c18FaultAlphabet(pr[0], pr[1]), []c18Conf{cf}})
+					}
+				}
+			}
 		}
 		total := 1
 		for i := 0; i < L; i++ {
@@ -210,7 +239,7 @@ func c18GenOp(rt *rapid.T, addrs []int, deltas []int64, depth int, nestP int, pa
 		}
 		o.Port = rapid.SampledFrom([]uint16{443, 443, 80}).Draw(rt, "port")
 		o.Live = rapid.Bool().Draw(rt, "live")
-		o.ErrK = rapid.IntRange(0, 1).Draw(rt, "errk")
+		o.ErrK = c18GenErrK(rt)
 		if nestP > 0 && depth < 2 && rapid.IntRange(0, 99).Draw(rt, "nest") < nestP {
 			n := rapid.IntRange(1, 3).Draw(rt, "nnested")
 			for i := 0; i < n; i++ {
@@ -219,6 +248,32 @@ func c18GenOp(rt *rapid.T, addrs []int, deltas []int64, depth int, nestP int, pa
 		}
 	}
 	return o
+}
+
+// c18GenErrK draws the error that accompanies the scripted verdict (it only matters for a live
+// verdict): the phantom picked up the connection, or a dial error — from the curated alphabet or an
+// arbitrary errno (see zz_verif_c18_faults_test.go). Station-side scan failures make up about half.
+func c18GenErrK(rt *rapid.T) int {
+	switch m := rapid.IntRange(0, 9).Draw(rt, "errmode"); {
+	case m <= 2:
+		return 0
+	case m == 3:
+		return 1
+	case m <= 7:
+		return rapid.IntRange(2, len(c18LiveErrs)-1).Draw(rt, "errk")
+	default:
+		return c18ErrnoBase + rapid.SampledFrom(c18Errnos).Draw(rt, "errno")
+	}
+}
+
+// c18FaultAlphabet: the exhaustive alphabet over two phantoms whose probes can also fail with the
+// dial errors k0 / k1 (verdict live): 9 symbols like the other families.
+func c18FaultAlphabet(k0, k1 int) []c18Op {
+	q := func(a int, live bool, k int) c18Op { return c18Op{Kind: "q", Addr: a, Port: 443, Live: live, ErrK: k} }
+	return []c18Op{
+		q(0, true, 0), q(0, false, 0), q(0, true, k0), q(2, true, 0), q(2, false, 0), q(2, true, k1),
+		{Kind: "adv", DeltaS: 300}, {Kind: "adv", DeltaS: 3300}, {Kind: "clear"},
+	}
 }
 
 // c18GenAddrs draws the case's phantoms: lo..hi distinct entries of c18Addrs — canonical literals
@@ -262,11 +317,15 @@ func c18Gen(rt *rapid.T, maxOps, nestP int) c18Case {
 }
 
 func TestVerif_C18_random(t *testing.T) {
-	rec := vh.NewRec("C18", "random", "rapid-generated sequential histories of 1-200 operations {query, advance, clear-expired} over 4-6 phantoms drawn from 14 address strings (canonical v4/v6 literals, zoned v6 with two zones, two host names, zero-padded and space-prefixed v4, upper-case and v4-mapped v6; each string a host of its own), ports {443,80}, scripted verdicts with the error values the real probe produces; configurations: lifetimes {off,0s,90s,5m,1h,500ms,999ms,1001ms,1500ms,2.5s,1m0.25s}^2 x capacities {0..4}^2; advances (ms resolution) biased to lifetime, lifetime+-1 ms, +400 ms, +999 ms, the next whole second, +-1 s and fractions; non-trivial as in the exhaustive sub-check; distinct by (configuration, history)")
+	rec := vh.NewRec("C18", "random", "rapid-generated sequential histories of 1-200 operations {query, advance, clear-expired} over 4-6 phantoms drawn from 14 address strings (canonical v4/v6 literals, zoned v6 with two zones, two host names, zero-padded and space-prefixed v4, upper-case and v4-mapped v6; each string a host of its own), ports {443,80}, scripted verdicts with the error values the real probe produces (live: the phantom answered, or any dial error that is not a time-out - a curated list of refusals, station-side errnos from connect/socket in several wrappings, resolver/address errors, or a drawn errno 1..133; about half of the live outcomes are scans that failed on the station's side); configurations: lifetimes {off,0s,90s,5m,1h,500ms,999ms,1001ms,1500ms,2.5s,1m0.25s}^2 x capacities {0..4}^2; advances (ms resolution) biased to lifetime, lifetime+-1 ms, +400 ms, +999 ms, the next whole second, +-1 s and fractions; non-trivial as in the exhaustive sub-check; distinct by (configuration, history)")
 	defer rec.Flush()
 	rec.Require("hit-live", "hit-nonlive", "expiry-then-flip", "eviction-live", "eviction-nonlive", "reprobe-after-expiry", "clear-removed",
 		"conf:both", "conf:live-only", "conf:nonlive-only", "conf:uncached", "conf:capacity-live", "conf:capacity-nonlive")
 	rec.Require("conf:fractional-lifetime", "adv-subsecond", "query-within-1s-after-fractional-expiry", "addr:non-canonical-spelling", "addr:two-non-literal-phantoms")
+	rec.Require(c18FaultClasses...)
+	if err := c18CheckAlphabet(); err != nil {
+		t.Fatalf("harness problem: %v", err)
+	}
 	if c18Replay(t, rec) {
 		return
 	}
@@ -279,6 +338,11 @@ func TestVerif_C18_overlap(t *testing.T) {
 	rec := vh.NewRec("C18", "overlap", "as the random sub-check (up to 80 top-level operations) but 30% of the queries have 1-3 further operations (nesting depth <= 2, two thirds of them on the same address) executed while their probe is in flight — every interleaving at the point where PhantomIsLive holds no lock, replayable; for an address with overlapping probes the oracle accepts any verdict measured within its lifetime; non-trivial as in the exhaustive sub-check; distinct by (configuration, history)")
 	defer rec.Flush()
 	rec.Require("addr:two-non-literal-phantoms", "overlap-same-address", "hit-with-both-verdicts-in-lifetime", "hit-live", "hit-nonlive", "eviction", "nested")
+	rec.Require(c18FaultClasses...)
+	rec.Require("fault-probe:same-address-measured-meanwhile")
+	if err := c18CheckAlphabet(); err != nil {
+		t.Fatalf("harness problem: %v", err)
+	}
 	if c18Replay(t, rec) {
 		return
 	}
